@@ -3,6 +3,7 @@
 
 mod c05;
 mod c05b;
+mod c05c;
 mod c10;
 mod c16;
 mod c17;
